@@ -9,9 +9,11 @@ Driver of C19.  `<esc>` = every byte outside [A-Za-z0-9_.-] as %XX; JSON is comp
      model: `decode` / `encode` over the shape unfolded from the regenerated field table of <Struct>.
 `pair fc|host|retry <esc wire> => ok:<esc j1>:<esc j2> | err`   the three custom pairs (real methods vs `fcU/fcM`, …).
 `dur =<esc s> => ok:<esc formatted> | err`                      `time.ParseDuration` + `String()` vs `parseDur` / `fmtDur`.
-`sample <esc path> => unloadable:<why> | ok:<h1>:<h2>`          hashes of the key-sorted, name-sorted first and second dump
-`gen <n> => unloadable:<why> | ok:<h1>:<h2>`                    the same for a generated configuration.
-Property predicate (implementation tokens only): `j1 = j2` resp. `h1 = h2` — dump ∘ load is stable after the first pass.
+`sample <esc path> => unloadable:<why> | ok:<h1>:<h2>:lost<n>`  hashes of the key-sorted, name-sorted first and second dump, and
+                                                                 the number of scalars of the input the first dump no longer has
+`gen <n> => unloadable:<why> | ok:<h1>:<h2>:lost<n>`            the same for a generated configuration.
+Property predicate (implementation tokens only): `j1 = j2` resp. `h1 = h2 ∧ n = 0` — dump ∘ load is stable after the
+first pass and drops nothing.
 -/
 namespace MosnVerif.Drive.C19
 open MosnVerif.Drive MosnVerif.Model MosnVerif.Model.ConfigCodec
@@ -112,7 +114,7 @@ def run (caseToks impl : List String) : String :=
     match impl with
     | [t] =>
       match t.splitOn ":" with
-      | ["ok", a, b] => s!"A {if a == b then "S" else "V"} -"
+      | ["ok", a, b, l] => s!"A {if a == b && l == "lost0" then "S" else "V"} -"
       | "unloadable" :: _ => "A S -"
       | _ => "E E bad-impl"
     | _ => "E E bad-impl"
